@@ -263,23 +263,54 @@ func (d *differ) diff(a, b cty.Value, path string) *rtDiff {
 	return nil
 }
 
-func (d *differ) matchMembers(as, bs []cty.Value, used []bool, i int) bool {
-	if i == len(as) {
-		return true
-	}
-	for j := range bs {
-		if used[j] {
-			continue
+// matchMembers decides whether every member of as can be paired with its own member of bs such that the pair
+// shows no difference: a maximum bipartite matching over the compatibility matrix (augmenting paths), so that a
+// set whose members do NOT all correspond costs n^2 comparisons plus a cubic search instead of a backtracking
+// search over assignments (43 unknown members with one narrowed bound kept a worker busy beyond the watchdog).
+func (d *differ) matchMembers(as, bs []cty.Value, used []bool, _ int) bool {
+	n := len(as)
+	ok := make([][]bool, n)
+	for i := range as {
+		ok[i] = make([]bool, len(bs))
+		any := false
+		for j := range bs {
+			if !used[j] && d.diff(as[i], bs[j], "") == nil {
+				ok[i][j], any = true, true
+			}
 		}
-		if d.diff(as[i], bs[j], "") == nil {
-			used[j] = true
-			if d.matchMembers(as, bs, used, i+1) {
+		if !any {
+			return false
+		}
+	}
+	owner := make([]int, len(bs))
+	for j := range owner {
+		owner[j] = -1
+	}
+	var try func(i int, seen []bool) bool
+	try = func(i int, seen []bool) bool {
+		for j := range bs {
+			if !ok[i][j] || seen[j] {
+				continue
+			}
+			seen[j] = true
+			if owner[j] < 0 || try(owner[j], seen) {
+				owner[j] = i
 				return true
 			}
-			used[j] = false
+		}
+		return false
+	}
+	for i := 0; i < n; i++ {
+		if !try(i, make([]bool, len(bs))) {
+			return false
 		}
 	}
-	return false
+	for j, o := range owner {
+		if o >= 0 {
+			used[j] = true
+		}
+	}
+	return true
 }
 
 func isExactFloat64(f *big.Float) bool {
